@@ -142,6 +142,19 @@ class Shadow:
         self.prev_core = None
 
 
+MAXFLDS = (2 ** 64 - 1) // 24     # recomp_record_fields cannot size a larger field table
+HUGE = [4611686018427387904, MAXFLDS + 1, 2 ** 63 - 1]
+
+
+def to_int(kind, text):
+    """the integer hawk_rtx_valtoint makes of a value stored into NF (kind: s string, f float, n unset variable); only for
+    the plain decimal forms the generator uses"""
+    if kind == "n":
+        return 0
+    m = re.match(r"\s*([+-]?(\d+\.?\d*|\.\d+))", text)
+    return int(float(m.group(1))) if m else 0
+
+
 def fs_mode(fs):
     return "blank" if fs == " " else "each" if fs == "" else "char" if len(fs) == 1 else "quoted" if (len(fs) == 5 and fs[0] == "?") else "regex"
 
@@ -172,14 +185,14 @@ def oracle(lines, cout, stats=None):
         op = w[0]
         resplit = None
         expect_same = False
-        if d["err"] and not (op in ("setnf", "setf") and w[1].startswith("-")):
-            return (i, "the statement ended the program with run-time error %s" % d["err"])
         if stats is not None:
             k = None
             if op == "setnf" and not w[1].startswith("-"):
-                k = "NF=n:" + ("shrink" if int(w[1]) < len(sh.f) else "same" if int(w[1]) == len(sh.f) else "grow")
+                k = "NF=n:" + ("shrink" if int(w[1]) < len(sh.f) else "same" if int(w[1]) == len(sh.f) else "grow" if int(w[1]) <= MAXFLDS else "huge")
+            elif op in ("setnfv", "getlinenf", "incnf", "decnf", "postinc", "addnf", "refcall", "refcallnf"):
+                k = "NF-store:" + op + (":" + w[1] if op == "setnfv" else "") if not op.startswith("refcall") else "by-ref-param-read:" + op
             elif op == "setf" and not w[1].startswith("-") and w[1] != "0":
-                k = "$i=v:" + ("existing" if int(w[1]) <= len(sh.f) else "beyond-NF") + (":long" if len(w[2]) > 400 else "")
+                k = "$i=v:" + ("existing" if int(w[1]) <= len(sh.f) else "beyond-NF" if int(w[1]) <= MAXFLDS else "huge") + (":long" if len(w[2]) > 400 else "")
             elif op in ("set0", "getline", "next", "sub", "gsub", "self0") and (len(w) > 1 or op == "self0"):
                 k = "split:" + fs_mode(sh.fs) + (":strip" if sh.strip else "")
                 same = sh.line if op == "self0" else unhx(w[1]) if op in ("set0", "getline", "next") else (
@@ -200,17 +213,34 @@ def oracle(lines, cout, stats=None):
                 if d["err"] != "eposidx":
                     return (i, "negative field index was not rejected")
                 expect_same = True; dead = True
+            elif k > len(sh.f) and k > MAXFLDS:
+                if d["err"] != "enomem":
+                    return (i, "$(%d) = v (a field table that cannot be sized) was not refused with ENOMEM" % k)
+                sh.f = []; sh.line = ""; dead = True
             else:
                 sh.f = sh.f + [""] * (k - len(sh.f))
                 sh.f[k - 1] = unhx(w[2])
                 sh.line = sh.ofs.join(sh.f)
-        elif op == "setnf":
-            n = int(w[1])
+        elif op in ("setnf", "setnfv", "getlinenf", "incnf", "decnf", "postinc", "addnf"):
+            # every way of storing into NF: NF then is the integer part of the value, the record is cut or padded to it
+            cur = len(sh.f)
+            n = (int(w[1]) if op == "setnf" else to_int(w[1], unhx(w[2])) if op == "setnfv" else to_int("s", unhx(w[1])) if op == "getlinenf"
+                 else cur + 1 if op in ("incnf", "postinc") else cur - 1 if op == "decnf" else cur + int(w[1]))
+            if op in ("setnfv", "getlinenf") and str(n) != w[-1]:
+                return (i, "generator and oracle disagree on the integer value of %r" % l)
             if n < 0:
                 if d["err"] != "einval":
                     return (i, "negative NF was not rejected")
                 expect_same = True; dead = True
+            elif n > cur and n > MAXFLDS:
+                if d["err"] != "enomem":
+                    return (i, "NF = %d (a field table that cannot be sized) was not refused with ENOMEM" % n)
+                sh.f = []; sh.line = ""; dead = True      # the error path of hawk_rtx_setrec clears the record
             else:
+                if op == "postinc" and d.get("c") != str(cur):
+                    return (i, "NF++ evaluated to %s with NF=%d" % (d.get("c"), cur))
+                if op == "getlinenf" and d.get("c") != "1":
+                    return (i, "getline NF returned %s with a line available" % d.get("c"))
                 sh.f = sh.f[:n] + [""] * (n - len(sh.f))
                 sh.line = sh.ofs.join(sh.f)
         elif op in ("sub", "gsub"):
@@ -243,8 +273,14 @@ def oracle(lines, cout, stats=None):
             sh.strip = w[1] == "1"; expect_same = True
         elif op in ("ofmt", "read", "readnf"):
             expect_same = True
+        elif op in ("refcall", "refcallnf"):
+            # passing $j / NF to an `&` parameter that the function only reads is a read: nothing may change
+            expect_same = True
+            want = (str(len(sh.f)) if op == "refcallnf" else sh.line if int(w[1]) == 0 else (sh.f[int(w[1]) - 1] if int(w[1]) <= len(sh.f) else "")) + "!"
+            if unesc(d.get("y", "")) != want:
+                return (i, "f(%s) with f(&x) { return x \"!\" } returned %r, expected %r" % ("NF" if op == "refcallnf" else "$" + w[1], unesc(d.get("y", "")), want))
         if d["err"] and not dead:
-            return (i, "statement failed with %s" % d["err"])
+            return (i, "the statement ended the program with run-time error %s" % d["err"])
         if resplit is not None:
             sh.line = resplit
             f = ref_split(sh.fs, sh.strip, resplit)
@@ -368,6 +404,31 @@ def gen_stale_rewrite(rng):
     return lines
 
 
+NF_STR = ["2.7", "3x", "", " 2", "abc", "2 a b", "+1", "0.9", "4.", "1", "5", "3"]
+NF_FLT = ["2.7", "0.9", "3.5", "1.25", "6.0"]
+
+
+def gen_nf_store(rng):
+    """NF stored otherwise than by `NF = <integer>`: from a string, a float, an unset variable, ++ -- += and getline NF"""
+    k = rng.random()
+    if k < 0.25:
+        t = rng.choice(NF_STR); return "setnfv s %s %d" % (hx(t), to_int("s", t))
+    if k < 0.40:
+        t = rng.choice(NF_FLT); return "setnfv f %s %d" % (hx(t), to_int("f", t))
+    if k < 0.50:
+        return "setnfv n - 0"
+    if k < 0.62:
+        return "incnf"
+    if k < 0.70:
+        return "postinc"
+    if k < 0.78:
+        return "addnf %d" % rng.choice([1, 2, 3, 0])
+    if k < 0.84:
+        return "decnf" if rng.random() < 0.7 else "addnf -1"
+    t = rng.choice(NF_STR + ["0 a b", "1 a b", "2 a b", "4 a b"])
+    return "getlinenf %s %d" % (hx(t), to_int("s", t))
+
+
 def gen_history(rng, n):
     lines = ["new"]
     quoted = False
@@ -391,9 +452,11 @@ def gen_history(rng, n):
             i = rng.choice([1, 1, 2, 2, 3, nf, nf + 1, nf + 2, nf + 3, rng.randrange(1, 9)])
             v = rng.choice(VAL_POOL) if rng.random() < 0.93 else "L" * rng.choice([200, 300, 700])
             lines.append("setf %d %s" % (max(i, 1) if rng.random() < 0.98 else 0, hx(v))); nf = max(nf, i)
-        elif k < 0.58:
+        elif k < 0.50:
             m = rng.choice([0, 1, 2, nf - 1, nf, nf, nf + 1, nf + 3, rng.randrange(0, 9)])
             lines.append("setnf %d" % max(m, 0)); nf = max(m, 0)
+        elif k < 0.58:
+            lines.append(gen_nf_store(rng)); nf = 2
         elif k < 0.64:
             p, r = rng.choice(SUB_POOL)
             lines.append("%s %s %s" % (rng.choice(["sub", "gsub"]), hx(p), hx(r)))
@@ -408,8 +471,10 @@ def gen_history(rng, n):
             lines.append("fs " + hx(fs))
         elif k < 0.88:
             lines.append(rng.choice(["getline ", "next "]) + hx(gen_text(rng, quoted))); nf = 3
-        elif k < 0.93:
+        elif k < 0.915:
             lines.append("read %d" % rng.choice([0, 1, 2, nf, nf + 1, nf + 5]))
+        elif k < 0.93:
+            lines.append(rng.choice(["refcall %d" % rng.choice([0, 1, 2, nf, nf + 1, nf + 4]), "refcallnf"]))
         elif k < 0.95:
             lines.append("readnf")
         elif k < 0.97:
@@ -417,8 +482,10 @@ def gen_history(rng, n):
         else:
             lines.append("strip %d" % rng.randrange(0, 2))
     r = rng.random()
-    if r < 0.04:
+    if r < 0.03:
         lines.append("setnf -%d" % rng.randrange(1, 4))
+    elif r < 0.04:
+        lines.append(rng.choice(["setf %d %s" % (rng.choice(HUGE), hx("1")), "setnf %d" % rng.choice(HUGE), "addnf %d" % rng.choice(HUGE[:2])]))
     elif r < 0.07:
         lines.append("getline")
     elif r < 0.08:
@@ -428,7 +495,8 @@ def gen_history(rng, n):
 
 EXH_ALPHA = ["set0 " + hx("a b c"), "set0 " + hx(" a:b  1 "), "setf 1 " + hx("xxxx"), "setf 2 -", "setf 5 " + hx("q"),
              "setnf 0", "setnf 2", "setnf 5", "ofs " + hx("-"), "ofs -", "fs " + hx(":"), "gsub %s %s" % (hx("a"), hx("QQ")),
-             "getline " + hx("b a"), "read 2", "gsub %s %s" % (hx("a"), hx("&")), "self0", "setf 2 " + hx("p q")]
+             "getline " + hx("b a"), "read 2", "gsub %s %s" % (hx("a"), hx("&")), "self0", "setf 2 " + hx("p q"),
+             "setnfv n - 0", "incnf", "setnfv s %s 2" % hx("2.7"), "refcall 7", "getlinenf %s 1" % hx("1 a b")]
 
 
 def exhaustive(depth):
@@ -448,7 +516,8 @@ def nontrivial(block):
         w = l.split()
         if w[0] in ("set0", "getline", "next") and len(w) > 1 and w[-1] != "-":
             seen_rec = True
-        elif seen_rec and ((w[0] == "setf" and w[1] not in ("0",)) or (w[0] == "setnf" and not w[1].startswith("-"))):
+        elif seen_rec and ((w[0] == "setf" and w[1] not in ("0",)) or (w[0] == "setnf" and not w[1].startswith("-")) or
+                           w[0] in ("setnfv", "incnf", "postinc", "addnf", "getlinenf")):
             moved += 1
     return moved >= 2
 
@@ -601,7 +670,7 @@ def run(ctx):
     nontriv = len({tuple(b) for b in blocks if nontrivial(b)})
     samples = [" ; ".join(pretty(l) for l in b[:10]) for b in (blocks[ncorpus + 5:ncorpus + 6] + blocks[-3:])]
     return C.finish(ctx, [proof], evaluations, nontriv,
-                    "histories = corpus + every sequence of length %d over a 17-op alphabet after an implicit record read + seeded random histories (<= 12 ops over "
+                    "histories = corpus + every sequence of length %d over a 22-op alphabet after an implicit record read + seeded random histories (<= 12 ops over "
                     "$0=s, $i=v with i up to NF+3, NF=n, sub/gsub on $0, OFS=, FS= in blank/char/empty/regex/'?'-quoted modes, STRIPRECSPC, OFMT, plain getline, main-loop read, reads; "
                     "records over {a,b,blank,:,1,comma,tab} with leading/trailing/multiple separators, empty records, >256-char records); after every op the program's own reads (NF, $0, "
                     "every $i by value and through a positional reference) and the internal state (NF global, nflds, inrec.line, d0, each field's buffer/offset/len/value, val_ref_to_str/"
@@ -628,7 +697,7 @@ SHOW = 'printf "%d|%s|", NF, $0; for (i = 1; i <= NF + 1; i++) printf "[%s]", $i
 SHOW_REF = SHOW + ' for (i = 1; i <= NF + 1; i++) printf "<%s>", hawk::call("substr", $i, 1); print "";'
 
 
-def to_awk(block, show=SHOW):
+def to_awk(block, show=SHOW, hawk_only=False):
     """(program text, stdin text) or None when an op has no plain-awk spelling"""
     st, inp = [], []
     for l in block:
@@ -644,6 +713,18 @@ def to_awk(block, show=SHOW):
             st.append("$(%s) = %s;" % (w[1], awk_str(unhx(w[2]))))
         elif op == "setnf":
             st.append("NF = %s;" % w[1])
+        elif op == "setnfv":
+            st.append("NF = %s;" % (awk_str(unhx(w[2])) if w[1] == "s" else unhx(w[2]) if w[1] == "f" else "neverset"))
+        elif op in ("incnf", "decnf", "postinc"):
+            st.append({"incnf": "++NF;", "decnf": "--NF;", "postinc": "NF++;"}[op])
+        elif op == "addnf":
+            st.append("NF += %s;" % w[1])
+        elif op == "getlinenf":
+            st.append("getline NF;"); inp.append(unhx(w[1]))
+        elif op in ("refcall", "refcallnf"):
+            if not hawk_only:
+                return None
+            st.append("idf(%s);" % ("NF" if op == "refcallnf" else "$(%s)" % w[1]))
         elif op in ("sub", "gsub"):
             st.append("%s(%s, %s);" % (op, awk_str(unhx(w[1])), awk_str(unhx(w[2]))))
         elif op == "ofs":
@@ -666,7 +747,8 @@ def to_awk(block, show=SHOW):
             return None
         if show:
             st.append(show)
-    return "BEGIN {\n  " + "\n  ".join(st) + "\n}\n", "".join(x + "\n" for x in inp)
+    pre = 'function idf(&x) { return x "!"; }\n' if any("idf(" in x for x in st) else ""
+    return pre + "BEGIN {\n  " + "\n  ".join(st) + "\n}\n", "".join(x + "\n" for x in inp)
 
 
 def gawk_safe(block):
@@ -675,7 +757,9 @@ def gawk_safe(block):
         w = l.split()
         if w[0] in ("strip", "ofmt") or (w[0] == "getline" and len(w) == 1):
             return False
-        if w[0] in ("setnf", "setf", "read") and w[1].startswith("-"):
+        if w[0] in ("setnf", "setf", "read", "addnf") and (w[1].startswith("-") or int(w[1]) > 10 ** 6):
+            return False
+        if w[0] in ("refcall", "refcallnf", "decnf"):
             return False
         if w[0] == "fs":
             fs = unhx(w[1])
@@ -725,10 +809,10 @@ def gawk_agreement(ctx, libdir, blocks, limit):
 
 def pretty(l):
     w = l.split()
-    nint = {"setf": 1, "setnf": 1, "read": 1, "strip": 1}.get(w[0], 0)
+    nint = {"setf": 1, "setnf": 1, "read": 1, "strip": 1, "addnf": 1, "refcall": 1, "setnfv": 1}.get(w[0], 0)
     out = [w[0]]
     for k, t in enumerate(w[1:]):
-        if k < nint:
+        if k < nint or (w[0] in ("setnfv", "getlinenf") and k == len(w) - 2):
             out.append(t)
         else:
             try:
@@ -739,7 +823,7 @@ def pretty(l):
 
 
 def replay_text(small, co, mo, ce):
-    pa = to_awk(small, SHOW_REF)
+    pa = to_awk(small, SHOW_REF, hawk_only=True)
     asprog = ""
     if pa:
         asprog = ("# the same history as a hawk program (printf '%%s' %r | <libdir>/hawk '<program>'); hawk::call(\"substr\", $i, 1) reads $i through a positional reference:\n" % pa[1] +
